@@ -40,6 +40,10 @@ C12FnFails(c) ==
         \A k \in O : BoolSeqOK(a.eq_neg[k], LAMBDA j : FEqualsNegInput(n, tt[k], j))>>,
     <<"get_significant_inputs_of",
         \A k \in O : NoDup(a.signif[k]) /\ {x + 1 : x \in SeqSet(a.signif[k])} = FSignificant(n, tt[k])>>,
+    \* "identical answers": the three representations are judged one at a time, so the one list every one of them has to
+    \* give is fixed here - the significant input indices in increasing order
+    <<"get_significant_inputs_of-identical-across-representations(increasing-indices)",
+        \A k \in O : \A i, j \in DOMAIN a.signif[k] : i < j => a.signif[k][i] < a.signif[k][j]>>,
     <<"find_negations_to_make_symmetric",
         \A q \in DOMAIN a.negs :
           LET S == {x + 1 : x \in SeqSet(a.negs[q].outs)}
